@@ -220,14 +220,18 @@ func getSig(req proto.Message, sigFd protoreflect.FieldDescriptor) (key, sign []
 // ---------------------------------------------------------------- invocation
 
 type callResult struct {
-	resp any
-	err  error
-	sent int // messages sent on the stream
+	resp     any
+	err      error
+	sent     int // messages sent on the stream
+	panicked any // the handler panicked with this value
 }
 
 func (r callResult) code() codes.Code { return status.Code(r.err) }
 
 func (r callResult) String() string {
+	if r.panicked != nil {
+		return fmt.Sprintf("PANIC %v", r.panicked)
+	}
 	if r.err != nil {
 		return fmt.Sprintf("error code=%s (%v)", r.code(), r.err)
 	}
@@ -261,6 +265,12 @@ func (s *fakeStream) RecvMsg(m any) error {
 
 // invoke sends req over the (simulated) wire to the generated handler of m.
 func (m *method) invoke(srv any, req proto.Message) (res callResult) {
+	defer func() {
+		if p := recover(); p != nil {
+			res.panicked = p
+			res.err = status.Errorf(codes.Unknown, "handler panicked: %v", p)
+		}
+	}()
 	wire, err := proto.Marshal(req)
 	if err != nil {
 		ev.Inconclusive("C32: marshal %s request: %v", m.name, err)
